@@ -23,7 +23,9 @@ N_NEW = H.val.get("N_NEW_CRYSTAL", 10)
 # random names, and names the built-in collection happens to know: a user-owned collection has nothing to do with it, whatever its state
 NAME = hs.one_of(hs.text(alphabet="ABCDEFGHIJKLMNOPQRSTUVWXYZabcdefghijklmnopqrstuvwxyz0123456789_", min_size=1, max_size=20),
                  hs.text(alphabet="ABCDEFGHIJKLMNOPQRSTUVWXYZabcdefghijklmnopqrstuvwxyz0123456789_", min_size=1, max_size=20),
-                 hs.sampled_from(["Si", "Diamond", "Graphite", "Ge", "AlphaQuartz", "LiF"]))
+                 hs.sampled_from(["Si", "Diamond", "Graphite", "Ge", "AlphaQuartz", "LiF"]),
+                 # names with bytes >= 0x80 (latin-1 here; to the library a name is a byte string): sorting and searching must agree on their order
+                 hs.text(alphabet="ABab12_\xe9\xb5\xdf\xa0\xff", min_size=1, max_size=12))
 LONGNAME = hs.tuples(hs.sampled_from(["Langasite_La3Ga5SiO14", "ABCDEFGHIJKLMNOPQRSTUVWXYZ", "x" * 24]), hs.text(alphabet="ABCab_12", min_size=1, max_size=4)).map(lambda t: t[0] + t[1])
 # numbers carry at most 6 decimals: the documented file format is line oriented with short lines (the reader takes 99 characters per line)
 FLT = hs.floats(0.5, 40.0).map(lambda x: round(x, 6))
@@ -58,7 +60,7 @@ def make_struct(name, cell, atoms):
 
 def _ws(text, key):
     """the format is whitespace separated: blanks, tabs and runs of both are the same thing.  Deterministic variation per crystal name."""
-    k = sum(key.encode()) % 4
+    k = sum(key.encode("latin-1")) % 4
     if k == 0:
         return text
     sep = ("\t", "  ", " \t ")[k - 1]
@@ -92,7 +94,15 @@ def file_text(crystals, corruption=None, where=0):
                 out.append(_ws("%d %r %r %r %r\n" % (z, fr, x, y, zz), name))
         if c == "bad-atom-row" and not atoms:
             out.append("14 1.0 abc 0.5 0.5\n")
-    out.append("#EOF\n")
+    # how a file ends is not part of the format: with "#EOF", without it, without a final newline
+    # (only when the last crystal has atoms: a header-only last block that runs into the end of the file is the "eof-after-L" corruption)
+    k = sum(crystals[0][0].encode("latin-1")) % 5 if crystals and corruption is None and crystals[-1][2] else 0
+    if k == 1:
+        pass                                   # no #EOF line
+    elif k == 2:
+        return "".join(out).rstrip("\n")      # no #EOF and no final newline
+    else:
+        out.append("#EOF\n")
     return "".join(out)
 
 
@@ -164,7 +174,7 @@ class Machine(RuleBasedStateMachine):
 
     @rule(name=hs.one_of(NAME, NAME, LONGNAME), spec=spec_st())
     def add_new(self, name, spec):
-        nm = name.encode()
+        nm = name.encode("latin-1")
         if nm in self.model:
             return
         full = len(self.model) >= self.cap
@@ -196,7 +206,7 @@ class Machine(RuleBasedStateMachine):
 
     @rule(name=hs.one_of(NAME, LONGNAME))
     def get_absent(self, name):
-        nm = name.encode()
+        nm = name.encode("latin-1")
         if nm in self.model:
             return
         self.step("GetAbsent(%r)" % name)
@@ -227,13 +237,13 @@ class Machine(RuleBasedStateMachine):
 
     def write_file(self, text):
         path = os.path.join(TMPDIR, "c%d.dat" % len(self.history))
-        with open(path, "w") as f:
+        with open(path, "w", encoding="latin-1") as f:
             f.write(text)
         return path
 
     @rule(names=hs.lists(NAME, min_size=1, max_size=14, unique=True), specs=hs.lists(spec_st(), min_size=14, max_size=14))
     def readfile_wellformed(self, names, specs):
-        names = [n for n in names if n.encode() not in self.model]
+        names = [n for n in names if n.encode("latin-1") not in self.model]
         if not names:
             return
         crystals = [(n, specs[i][0], specs[i][1]) for i, n in enumerate(names)]
@@ -245,14 +255,14 @@ class Machine(RuleBasedStateMachine):
         if rv != 1 or err is not None:
             self.fail("readfile:wellformed-rejected", "1", dict(rv=rv, error=err))
         for n, cell, atoms in crystals:
-            self.model[n.encode()] = (list(cell), [tuple(a) for a in atoms])
+            self.model[n.encode("latin-1")] = (list(cell), [tuple(a) for a in atoms])
         if full:
             self.was_full_insert = True
 
     @rule(names=hs.lists(NAME, min_size=1, max_size=4, unique=True), specs=hs.lists(spec_st(), min_size=4, max_size=4),
           kind=hs.sampled_from(CORRUPTIONS), where=hs.integers(0, 3))
     def readfile_corrupted(self, names, specs, kind, where):
-        names = [n for n in names if n.encode() not in self.model]
+        names = [n for n in names if n.encode("latin-1") not in self.model]
         if not names:
             return
         crystals = [(n, specs[i][0], specs[i][1]) for i, n in enumerate(names)]
@@ -268,8 +278,8 @@ class Machine(RuleBasedStateMachine):
     @precondition(lambda self: len(self.model) > 0)
     @rule(data=hs.data(), newname=NAME, specs=hs.lists(spec_st(), min_size=2, max_size=2), first=hs.booleans())
     def readfile_duplicate(self, data, newname, specs, first):
-        dup = data.draw(hs.sampled_from(sorted(self.model))).decode()
-        if newname.encode() in self.model or len(dup) > 20:
+        dup = data.draw(hs.sampled_from(sorted(self.model))).decode("latin-1")
+        if newname.encode("latin-1") in self.model or len(dup) > 20:
             return
         crystals = [(newname, specs[0][0], specs[0][1]), (dup, specs[1][0], specs[1][1])]
         if first:
@@ -285,7 +295,7 @@ class Machine(RuleBasedStateMachine):
     @rule(names=hs.lists(NAME, min_size=1, max_size=5, unique=True), specs=hs.lists(spec_st(), min_size=6, max_size=6), pos=hs.tuples(hs.integers(0, 4), hs.integers(0, 5)))
     def readfile_repeats_itself(self, names, specs, pos):
         """one file that defines the same new name twice (adjacent or not): rejected as a whole, collection unchanged"""
-        names = [n for n in names if n.encode() not in self.model]
+        names = [n for n in names if n.encode("latin-1") not in self.model]
         if not names:
             return
         src_i = pos[0] % len(names)
@@ -344,11 +354,11 @@ class Machine(RuleBasedStateMachine):
         L.fn["xrlFree"](cast(lst, c_void_p))
         exp = sorted(self.model)
         if names != exp or n.value != len(exp):
-            self.fail("list:mismatch", [x.decode() for x in exp], dict(n=n.value, names=[x.decode("latin-1") for x in names]))
+            self.fail("list:mismatch", [x.decode("latin-1") for x in exp], dict(n=n.value, names=[x.decode("latin-1") for x in names]))
         for nm, (cell, atoms) in self.model.items():
             p, err = L.call("Crystal_GetCrystal", nm, self.arr)
             if not p:
-                self.fail("get:present-missing", nm.decode(), err)
+                self.fail("get:present-missing", nm.decode("latin-1"), err)
             c = p.contents
             got_cell = [c.a, c.b, c.c, c.alpha, c.beta, c.gamma]
             got_atoms = [(c.atom[i].Zatom, c.atom[i].fraction, c.atom[i].x, c.atom[i].y, c.atom[i].z) for i in range(c.n_atom)]
@@ -357,7 +367,7 @@ class Machine(RuleBasedStateMachine):
             name = c.name
             L.fn["Crystal_Free"](p)
             if name != nm or got_cell != cell or got_atoms != atoms:
-                self.fail("entry:content", dict(name=nm.decode(), cell=cell, atoms=atoms), dict(name=name, cell=got_cell, atoms=got_atoms))
+                self.fail("entry:content", dict(name=nm.decode("latin-1"), cell=cell, atoms=atoms), dict(name=name, cell=got_cell, atoms=got_atoms))
             if not (stored == vol or (stored != stored and vol != vol)):
                 self.fail("entry:volume-not-recomputed", vol, stored)
 
